@@ -813,6 +813,42 @@ fn main() {
             let _ = db.flush_for_verif();
             println!("during_flush={}", seen.lock().unwrap());
         }
+        // sched_group_commit : two writers queue up behind an active one; the second does not fit into the first one's group
+        "sched_group_commit" => {
+            use raindb::{ReadOptions, WriteOptions};
+            let mut o = raindb::DbOptions::with_memory_env();
+            o.db_path = "db".to_string();
+            o.create_if_missing = true;
+            o.max_memtable_size = 64 * 1024 * 1024;
+            let db = std::sync::Arc::new(raindb::DB::open(o).expect("open"));
+            let fired = std::sync::Arc::new(std::sync::atomic::AtomicBool::new(false));
+            let results: std::sync::Arc<std::sync::Mutex<Vec<(String, bool)>>> = Default::default();
+            let handles: std::sync::Arc<std::sync::Mutex<Vec<std::thread::JoinHandle<()>>>> = Default::default();
+            let (db2, fired2, res2, h2) = (std::sync::Arc::clone(&db), std::sync::Arc::clone(&fired), std::sync::Arc::clone(&results), std::sync::Arc::clone(&handles));
+            v::set_sched_hook(Some(std::sync::Arc::new(move |name: &str| {
+                if name == "write.after_wal" && !fired2.swap(true, std::sync::atomic::Ordering::SeqCst) {
+                    for (key, len) in [("small", 10usize), ("big", 200 * 1024)] {
+                        let (db3, res3) = (std::sync::Arc::clone(&db2), std::sync::Arc::clone(&res2));
+                        let h = std::thread::spawn(move || {
+                            let r = db3.put(WriteOptions::default(), key.as_bytes().to_vec(), vec![b'x'; len]);
+                            res3.lock().unwrap().push((key.to_string(), r.is_ok()));
+                        });
+                        h2.lock().unwrap().push(h);
+                        // give the thread time to enqueue itself behind the active writer (queue order matters)
+                        std::thread::sleep(std::time::Duration::from_millis(300));
+                    }
+                }
+            })));
+            db.put(WriteOptions::default(), b"leader".to_vec(), b"1".to_vec()).unwrap();
+            for h in handles.lock().unwrap().drain(..) {
+                let _ = h.join();
+            }
+            v::set_sched_hook(None);
+            for (key, ok) in results.lock().unwrap().iter() {
+                println!("{}_put={}", key, if *ok { "ok" } else { "err" });
+                println!("{}_get={}", key, if db.get(ReadOptions::default(), key.as_bytes()).is_ok() { "found" } else { "missing" });
+            }
+        }
         // sched_get_race : while a get is in its unlocked section, the memtable is rotated and flushed
         "sched_get_race" => {
             use raindb::{ReadOptions, WriteOptions};
